@@ -29,12 +29,12 @@ from .. import exprs as E
 from .. import gen, leanio, pymodel
 
 PROP = "C08"
-LEAN = {"module": "Pygom.Props.C08",
+LEAN = {"module": "Pygom.Props.C08", "extra_modules": ["Pygom.Lemmas.Canary"],
         "required": ["Pygom.C08.inv_init", "Pygom.C08.inv_step", "Pygom.C08.never_stale", "Pygom.C08.never_stale_source",
                      "Pygom.C08.never_stale_partial", "Pygom.C08.stale_after_add_ode", "Pygom.C08.stale_sp_after_add_param",
                      "Pygom.C08.stale_unwatched_counterexample", "Pygom.C08.source_good", "Pygom.C08.ver_sound"]}
-BUDGET = {"quick": {"cases": 320, "maxlen": 12, "search": 600},
-          "thorough": {"cases": 500, "maxlen": 40, "search": 1000}}
+BUDGET = {"quick": {"cases": 280, "maxlen": 12, "search": 600},
+          "thorough": {"cases": 360, "maxlen": 40, "search": 800}}
 RULE = ("random initial model (1-3 states, 1-3 params, 0-3 events, every API route incl. incremental ones) + random history "
         "(length 3..12 quick / 3..40 thorough) of mutators (add_event Event/bare Transition, add_transition, add_birth_death, "
         "add_ode, derived parameter, new parameter/state then used, parameter values as list/ndarray/tuples/permuted tuples/"
